@@ -248,8 +248,8 @@ Frame(m, a, si, sm, sc, t) ==
    v0 |-> View(t),     \* history: the view when the scope was entered
    g0 |-> gprog]       \* history: the process-wide scopes open at that moment
 
-\* small families are explored deeper
-Bonus == CASE fam = FamTimeit -> 3 [] fam = FamDetour -> 2 [] OTHER -> 0
+\* the small detour family is explored deeper (the status tree of timeit is history and grows fast)
+Bonus == CASE fam = FamDetour -> 2 [] OTHER -> 0
 DepthOf(t) == IF t = Deep THEN MaxDepth + Bonus ELSE ShallowDepth
 
 Init ==
